@@ -12,7 +12,7 @@ import random
 import sys
 
 from simkit import util
-from simkit.util import GRID_US, Violation
+from simkit.util import GRID_US, Inconclusive, Violation
 from models.robot_model import RobotModel, ModelFault, fb_key, fb_value, period_us, index_events
 from models import robot_invariants
 
@@ -25,7 +25,12 @@ OWNED = {
     "C07": {"periodic_order", "execute_order", "lifecycle", "outcome", "exception", "hang"},
     "C10": {"reset_values", "exception", "hang"},
     "C11": {"feedback_nt", "feedback_calls", "feedback_type", "exception", "hang"},
+    # integration runs (a StateMachine component / AutonomousStateMachine / StatefulAutonomous mode inside a real MagicRobot)
+    "C01": {"sm_behaviour", "exception", "hang"}, "C02": {"sm_behaviour", "exception", "hang"},
+    "C03": {"sm_behaviour", "exception", "hang"}, "C04": {"sm_behaviour", "exception", "hang"},
+    "C13": {"sm_behaviour", "exception", "hang"}, "C15": {"sm_behaviour", "exception", "hang"},
 }
+INTEGRATION = ("C01", "C02", "C03", "C04", "C13", "C15")
 
 HINTS = {
     "int": ("int", "int", [0, 1, -3, 7, 2**40, 12]),
@@ -215,7 +220,121 @@ def c07_enum_plan(seed, j):
             "enum": {"case": j, "layout": k, "site": site, "schedule": sched, "visit": visit, "fms": fms}}
 
 
+def generate_integration(seed, prop, tier, index=0):
+    """A StateMachine component (C01-C04), an AutonomousStateMachine mode (C13) or a StatefulAutonomous mode (C15)
+    inside a real MagicRobot: engage() comes from teleopPeriodic / the autonomous mode, on_disable() from real mode
+    changes, pacing from the real NotifierDelay, tm from the selector's timer."""
+    from engines import sm as sm_engine, sa as sa_engine
+    rng = random.Random(seed ^ 0x5A5A)
+    dyadic = rng.random() < 0.6
+    period = (rng.choice([1, 1, 2]) / 64.0) if dyadic else rng.choice([0.02, 0.02, 0.01, 0.05])
+
+    def plain_comp(i):
+        return {"name": f"c{i}", "hooks": [h for h in ("setup", "on_enable", "on_disable") if rng.random() < 0.5], "resets": [], "plain_attrs": [],
+                "feedbacks": [], "inject_dep": rng.random() < 0.5, "inject_comp": None, "in_base_robot": False}
+
+    def machine_cfg(p):
+        for _ in range(50):
+            m = sm_engine.gen_config(rng, p)
+            if m["dyadic"] == dyadic:
+                break
+        m["dyadic"] = dyadic
+        sts = []
+        for st in m["states"]:
+            d = {k: st[k] for k in ("name", "kind", "must_finish") if k in st}
+            if st["kind"] == "timed":
+                d["duration"], d["next"] = st["duration"], st.get("next")
+                if not dyadic and isinstance(d["duration"], float):
+                    d["duration"] = round(d["duration"], 3)
+            sts.append(d)
+        return {"states": sts, "first": m["first"], "default": m.get("default")}
+
+    comps = [plain_comp(i) for i in range(rng.choice([0, 1, 2]))]
+    modes = []
+    if prop in ("C01", "C02", "C03", "C04"):
+        c = plain_comp(len(comps))
+        c["hooks"] = sorted(set(c["hooks"]) | {"on_disable"})
+        c["machine"] = machine_cfg(prop)
+        comps.insert(rng.randint(0, len(comps)), c)
+        for i, x in enumerate(comps):
+            x["name"] = f"c{i}"
+        if rng.random() < 0.5:
+            modes.append({"module": "m0", "cls": "Mode0", "name": "Plain0", "default": True, "kind": "plain"})
+    elif prop == "C13":
+        modes.append({"module": "m0", "cls": "Mode0", "name": rng.choice(["Auto A", "two_ball"]), "default": True, "kind": "asm", "machine": machine_cfg("C13")})
+    else:
+        for _ in range(50):
+            m = sa_engine.gen_config(rng)
+            if m["dyadic"] == dyadic:
+                break
+        sts = [{k: st[k] for k in ("name", "kind", "duration", "next") if k in st} for st in m["states"]]
+        modes.append({"module": "m0", "cls": "Mode0", "name": rng.choice(["Drive Forward", "M"]), "default": True, "kind": "sa",
+                      "machine": {"states": sts, "first": m["first"]}})
+    cap = rng.choice([10, 20, 40, 70] if tier == "quick" else [12, 30, 60, 110])
+    cfg = {"dyadic": dyadic, "period": period, "use_teleop_in_auto": rng.random() < 0.4, "fms": rng.random() < 0.3, "components": comps,
+           "robot_feedbacks": [], "modes": modes, "split_robot": False, "auto_selector_initial": None, "cap_waits": cap,
+           "boot_us": (rng.choice([0, 64, 6400]) * GRID_US) if dyadic else rng.choice([0, 181546, 5_000_003])}
+    ops = []
+    g = GRID_US if dyadic else 1000
+    p_us = period_us(cfg)
+
+    def add(site, visit, *acts):
+        ops.append({"site": site, "visit": visit, "acts": [list(a) for a in acts]})
+
+    # mode sessions: mostly the mode the machine lives in, interrupted by disables / other modes
+    home = "teleop" if prop in ("C01", "C02", "C03", "C04") else "auto"
+    k = 0
+    add("wait", 1, ["ds", 1, home, None])
+    while k < cap:
+        k += rng.choice([2, 4, 8, 15, 30])
+        if k < cap:
+            r = rng.random()
+            if r < 0.45:
+                add("wait", k, ["ds", 1, home, None])
+            elif r < 0.7:
+                add("wait", k, ["ds", 0, home, None])
+            else:
+                add("wait", k, ["ds", 1, rng.choice(["teleop", "auto", "test"]), None])
+    per = all_sites(cfg)
+    anysites = per["init"] + per["periodic"] + per["lifecycle"] + per["execute"] + per["mode"]
+    for _ in range(rng.choice([0, 0, 1, 2])):
+        add(rng.choice(anysites), rng.randint(1, 12), ["stall", rng.choice([1, 2, 5]) * (max(g, (p_us // 2 // g) * g))])
+    for _ in range(rng.choice([0, 0, 1])):
+        add("wait", rng.randint(1, cap), ["late", rng.choice([1, 3]) * g])
+    if rng.random() < 0.3:
+        add(rng.choice(anysites + ["wait"]), rng.randint(2, cap), ["end"])
+    # in-state actions of the embedded machine
+    if prop in ("C01", "C02", "C03", "C04"):
+        owner, mach = [(c["name"], c["machine"]) for c in comps if c.get("machine")][0]
+    else:
+        owner, mach = f"mode.{modes[0]['name']}", modes[0]["machine"]
+    regular = [st["name"] for st in mach["states"] if st["kind"] != "default"]
+    for _ in range(rng.choice([0, 0, 1, 2, 3])):
+        st = rng.choice(regular)
+        if rng.random() < 0.75:
+            add(f"{owner}.st.{st}", rng.randint(1, 8), ["smnext", rng.choice(regular)])
+        else:
+            add(f"{owner}.st.{st}", rng.randint(1, 8), ["smdone"])
+    # who calls engage()
+    if prop in ("C01", "C02", "C03", "C04"):
+        srcs = ["robot.teleopPeriodic"] + ([f"mode.{modes[0]['name']}.on_iteration"] if modes else [])
+        style = rng.choice(["always", "always", "bursts", "sparse"])
+        for src in srcs:
+            if style == "always":
+                add(src, "*", ["engage", owner])
+            else:
+                on = True
+                for v in range(1, cap + 1):
+                    if rng.random() < (0.15 if style == "bursts" else 0.5):
+                        on = not on
+                    if on:
+                        add(src, v, ["engage", owner])
+    return {"engine": ENGINE, "property": prop, "seed": seed, "config": cfg, "ops": ops, "integration": True}
+
+
 def generate(seed, prop, tier, index=0):
+    if prop in INTEGRATION:
+        return generate_integration(seed, prop, tier, index)
     if prop == "C07":
         n = len(c07_enum_space())
         if tier == "thorough" and index < n:
@@ -327,12 +446,50 @@ def _lit(v):
     return repr(v)
 
 
+def _machine_states_source(prefix, machine, flavour):
+    """State functions of an embedded machine; flavour: 'sm' (magicbot decorators) or 'sa' (StatefulAutonomous decorators)."""
+    L = []
+    for st in machine["states"]:
+        first = st["name"] == machine["first"]
+        if st["kind"] == "timed":
+            if flavour == "sm":
+                deco = f"@timed_state(duration={st['duration']!r}, next_state={st.get('next')!r}, first={first}, must_finish={bool(st.get('must_finish'))})"
+            else:
+                deco = f"@sa_timed_state(duration={st['duration']!r}, next_state={st.get('next')!r}, first={first})"
+        elif st["kind"] == "default":
+            deco = "@default_state"
+        else:
+            if flavour == "sm":
+                deco = f"@state(first={first}, must_finish={bool(st.get('must_finish'))})"
+            else:
+                deco = f"@sa_state(first={first})" if first else "@sa_state"
+        L += [f"    {deco}", f"    def {st['name']}(self, tm, state_tm, initial_call):",
+              f"        SIM.cb('{prefix}.st.{st['name']}', [tm, state_tm, initial_call], self)"]
+    return L
+
+
 def build_sources(cfg):
     """Returns (robot_source, {module_name: source}) for the generated robot and its autonomous package."""
-    L = ["import magicbot", "from magicbot import will_reset_to, feedback, tunable", "from collections.abc import Sequence", "",
+    L = ["import magicbot", "from magicbot import will_reset_to, feedback, tunable, state, timed_state, default_state", "from collections.abc import Sequence", "",
          "class Dep:", "    pass", ""]
     for c in cfg["components"]:
         nm = c["name"]
+        if c.get("machine"):
+            L.append(f"class {nm.upper()}(magicbot.StateMachine):")
+            if c["inject_dep"]:
+                L.append("    dep0: Dep")
+            L += ["    def __init__(self):", f"        SIM.cb('{nm}.ctor')"]
+            for h in ("setup", "on_enable"):
+                if h in c["hooks"]:
+                    L += [f"    def {h}(self):", f"        SIM.cb('{nm}.{h}')"] + (["        super().on_enable()"] if h == "on_enable" else [])
+            L += ["    def on_disable(self):", f"        SIM.cb('{nm}.on_disable')", "        super().on_disable()",
+                  f"        SIM.note('{nm}.post', [self.is_executing, self.current_state])",
+                  "    def execute(self):", f"        SIM.cb('{nm}.execute')", "        super().execute()",
+                  f"        SIM.note('{nm}.post', [self.is_executing, self.current_state])",
+                  "    def done(self):", f"        SIM.note('{nm}.done')", "        super().done()"]
+            L += _machine_states_source(nm, c["machine"], "sm")
+            L.append("")
+            continue
         inh = [r for r in c["resets"] if r["inherited"]]
         own = [r for r in c["resets"] if not r["inherited"] or r.get("override") == "marker"]
         shadow = [a for a in c["plain_attrs"] if a.get("shadows_marker")]
@@ -396,6 +553,25 @@ def build_sources(cfg):
     L.append("")
     mods = {}
     for m in cfg["modes"]:
+        if m.get("kind") in ("asm", "sa"):
+            pre = f"mode.{m['name']}"
+            S = ["import builtins", "SIM = builtins._verif_sim",
+                 "from magicbot import AutonomousStateMachine, state, timed_state, default_state",
+                 "from robotpy_ext.autonomous import StatefulAutonomous",
+                 "from robotpy_ext.autonomous import state as sa_state, timed_state as sa_timed_state"]
+            base = "AutonomousStateMachine" if m["kind"] == "asm" else "StatefulAutonomous"
+            S += [f"class {m['cls']}({base}):", f"    MODE_NAME = {m['name']!r}"]
+            if m["default"]:
+                S.append("    DEFAULT = True")
+            post = [f"        SIM.note('{pre}.post', [self.is_executing, self.current_state])"] if m["kind"] == "asm" else []
+            S += ["    def on_enable(self):", f"        SIM.cb('{pre}.on_enable')", "        super().on_enable()",
+                  "    def on_iteration(self, tm):", f"        SIM.cb('{pre}.on_iteration', tm)", "        super().on_iteration(tm)"] + post
+            S += ["    def on_disable(self):", f"        SIM.cb('{pre}.on_disable')", "        super().on_disable()"] + post
+            if m["kind"] == "asm":
+                S += ["    def done(self):", f"        SIM.note('{pre}.done')", "        super().done()"]
+            S += _machine_states_source(pre, m["machine"], "sm" if m["kind"] == "asm" else "sa")
+            mods[m["module"]] = "\n".join(S) + "\n"
+            continue
         S = ["import builtins", "SIM = builtins._verif_sim", f"class {m['cls']}:", f"    MODE_NAME = {m['name']!r}"]
         if m["default"]:
             S.append("    DEFAULT = True")
@@ -455,6 +631,7 @@ class _Sim:
                 self.fbvals[f"{owner}.fb.{fb['name']}"] = fb
         self.keys = sorted((c["name"], a["attr"]) for c in cfg["components"] for a in (c["resets"] + c["plain_attrs"]))
         self.boxes = {}
+        self.cur_owner = None
         self.clobber_pubs = {}
         self.snap_on = False
         self.mode_sub = None
@@ -543,19 +720,41 @@ class _Sim:
                 if self.robot is not None and hasattr(self.robot, "_automodes"):
                     self.robot.endCompetition()
                     self.fault("endCompetition")
+            elif k == "engage" and not at_wait:
+                comp = self.robot.__dict__.get(a[1]) if self.robot is not None else None
+                if comp is not None and hasattr(comp, "engage"):
+                    comp.engage()
+            elif k == "smnext" and not at_wait:
+                o = self.cur_owner
+                if o is not None and hasattr(type(o), str(a[1])) and a[1] != "dflt":
+                    o.next_state(a[1])
+            elif k == "smdone" and not at_wait:
+                if self.cur_owner is not None:
+                    self.cur_owner.done()
             elif k == "raise" and not at_wait:
                 do_raise = True
         return do_raise
+
+    def note(self, site, extra=None):
+        if self.aborted:
+            return
+        try:
+            n = self.visits.get(site, 0) + 1
+            self.visits[site] = n
+            self.log.append([site, n, self.world.now_us(), self.mode_sub.get(), self.snapshot(), extra])
+        except Exception:
+            self.harness_fail()
 
     def harness_fail(self):
         import traceback
         self.aborted = "harness"
         self.world.EMIT({"status": "error", "error": "harness exception inside a seam: " + traceback.format_exc()[-3000:]})
 
-    def cb(self, site, extra=None):
+    def cb(self, site, extra=None, owner=None):
         if self.aborted:
             return 0
         do_raise = False
+        self.cur_owner = owner
         try:
             n = self.visits.get(site, 0) + 1
             self.visits[site] = n
@@ -629,6 +828,9 @@ LIFECYCLE_SUFFIX = (".setup", ".on_enable", ".on_disable", "Init", ".ctor")
 
 def _classify(site_e, site_a):
     for s in (site_e, site_a):
+        if s and (".st." in s or s.endswith((".post", ".done"))):
+            return "sm_behaviour"
+    for s in (site_e, site_a):
         if s and (s.endswith(LIFECYCLE_SUFFIX)):
             return "lifecycle"
     for s in (site_e, site_a):
@@ -664,6 +866,14 @@ def compare(cfg, mlog, moutcome, ilog, ioutcome, exact):
             return ("reset_values", f"event {i} {e[0]}#{e[1]}: component attributes expected {e[4]!r}, got {a[4]!r}", i)
         if e[0].endswith(".setup") and e[5] != a[5]:
             return ("setup_obs", f"event {i} {e[0]}: not every component existed / was injected when setup() ran", i)
+        if ".st." in e[0]:
+            x, y = e[5], a[5]
+            ok = isinstance(y, list) and len(y) == 3 and y[2] is x[2] and all(
+                isinstance(v, (int, float)) and not isinstance(v, bool) and (v == w if exact else abs(v - w) <= 1e-9) for v, w in zip(y[:2], x[:2]))
+            if not ok:
+                return ("sm_behaviour", f"event {i} {e[0]}#{e[1]}: state function expected (tm, state_tm, initial_call) = {x}, received {y}", i)
+        elif e[0].endswith(".post") and e[5] != a[5]:
+            return ("sm_behaviour", f"event {i} {e[0]}#{e[1]}: expected (is_executing, current_state) = {e[5]}, got {a[5]}", i)
     if len(A) != len(B):
         e = A[n] if len(A) > n else None
         a = B[n] if len(B) > n else None
@@ -696,7 +906,10 @@ def execute(plan, trace=False):
 
     # ---- expected behaviour
     model = RobotModel(cfg, ops)
-    mlog, moutcome = model.run()
+    try:
+        mlog, moutcome = model.run()
+    except Inconclusive:
+        return {"status": "inconclusive", "violation": None, "probes": {}, "faults": {}, "sim_us": 0, "nontrivial": False, "states": [], "trans": []}
 
     # ---- the world
     world.goto(cfg["boot_us"])
@@ -755,7 +968,7 @@ def execute(plan, trace=False):
         ilog = sim.log
         ioutcome = result_box.get("outcome", ("hang",) if sim.aborted == "hang" else ("unknown",))
         status, violation = "ok", None
-        exact = True
+        exact = bool(cfg["dyadic"]) or prop not in INTEGRATION
         try:
             if sim.aborted == "hang":
                 raise Violation(prop, "model.hang", "the robot program kept looping after endCompetition()", sig=f"{prop}:model.hang")
@@ -775,7 +988,8 @@ def execute(plan, trace=False):
                         t = nt.getTopic(key)
                         if t.exists() and t.getTypeString() != want:
                             raise Violation(prop, "model.feedback_type", f"topic {key} has type {t.getTypeString()!r}, expected {want!r}", sig=f"{prop}:model.feedback_type")
-                robot_invariants.check(prop, cfg, ops, ilog, ioutcome)
+                if prop not in INTEGRATION:
+                    robot_invariants.check(prop, cfg, ops, ilog, ioutcome)
         except Violation as v:
             status, violation = "violation", v.to_json()
         probes, shape, states, trans = _coverage(cfg, model, mlog, moutcome, ops)
@@ -852,6 +1066,10 @@ def _coverage(cfg, model, mlog, moutcome, ops):
             probe("test_to_enabled_switch")
         prev = mode
     probe("iterations", model.visits.get("wait", 0))
+    if model.sm_calls:
+        probe("embedded_machine_state_calls", model.sm_calls)
+        probe("embedded_machine_stops", model.sm_stops)
+        probe("integration_runs")
     if moutcome[0] == "raised":
         probe("exception_left_robot_program")
     if model.faults_fired:
@@ -885,6 +1103,8 @@ def _coverage(cfg, model, mlog, moutcome, ops):
 
 def _nontrivial(prop, cfg, p, model):
     modes = {m for m, it in model.sessions if it > 0}
+    if prop in INTEGRATION:
+        return model.sm_calls >= 3 and (model.sm_stops >= 1 or prop == "C15")
     if prop == "C05":
         return len(cfg["components"]) >= 2 and len(modes) >= 2
     if prop == "C06":
